@@ -268,6 +268,17 @@ RICH_FUNCS = {'ADD': (2, 3), 'SUB': (2, 2), 'MUL': (2, 2), 'DIV': (2, 2), 'MIN':
 COQ_KIND = {'hint': 'KInt', 'vint': 'KInt', 'hnum': 'KNum', 'vnum': 'KNum', 'hbool': 'KBool', 'vbool': 'KBool'}
 
 
+RICH_TWRITES = {
+    'MUL($, 2)': ('call', 'MUL', [('self',), ('lit', '2', 2)]),
+    'DIV($, 2)': ('call', 'DIV', [('self',), ('lit', '2', 2)]),
+    'ADD($, 1)': ('call', 'ADD', [('self',), ('lit', '1', 1)]),
+    'ADD($, 0)': ('call', 'ADD', [('self',), ('lit', '0', 0)]),
+    'SUB(0, $)': ('call', 'SUB', [('lit', '0', 0), ('self',)]),
+    'NOT($)': ('call', 'NOT', [('self',)]),
+    'MUL($, 0.5)': ('call', 'MUL', [('self',), ('lit', '0.5', 0.5)]),
+}
+
+
 def rich_value(rng, kind):
     if rng.random() < 0.15:
         return None
@@ -310,6 +321,9 @@ def gen_rich(rng):
                 ('call', 'IF', [('call', 'GT', [a, ('lit', '2', 2)]), ('call', 'POW', [('lit', '-4', -4), ('lit', '0.5', 0.5)]), a]),
             ])
         trees['p%d' % q] = t
+    for q in followers:
+        if rng.random() < 0.2:
+            ports[q]['twrite'] = rng.choice(sorted(RICH_TWRITES))
     order = list(followers)
     rng.shuffle(order)
     pending = list(order)
@@ -326,6 +340,10 @@ def gen_rich(rng):
         elif pending and r < 0.5:
             q = pending.pop()
             script.append(['expr', 'p%d' % q, trees['p%d' % q]])
+        elif r < 0.58 and [i for i in sources if ports[i]['kind'].startswith('v') and i not in off]:
+            # a virtual port that is read by others goes away and comes back under the same id
+            i = rng.choice([i for i in sources if ports[i]['kind'].startswith('v') and i not in off])
+            script.append(['readd', 'p%d' % i, rich_value(rng, ports[i]['kind'])])
         elif r < 0.9 or not sources:
             i = rng.choice(sources) if sources else 0
             script.append(['set', 'p%d' % i, rich_value(rng, ports[i]['kind'])])
@@ -356,7 +374,7 @@ def gen_rich(rng):
             cur[c[3]] = c[4]
     # 'set' values must fit the kind of the port they go to
     for c in script:
-        if c[0] == 'set':
+        if c[0] in ('set', 'readd'):
             k = ports[int(c[1][1:])]['kind']
             v = c[2]
             if v is not None:
@@ -391,12 +409,12 @@ def run_rich_worker(scenarios):
                 script.append([c[0], c[1], c02.text_of(c[2])])
             elif c[0] == 'expr-in-handler':
                 script.append([c[0], c[1], c02.text_of(c[2]), c[3], w.enc(c[4])])
-            elif c[0] == 'set':
+            elif c[0] in ('set', 'readd'):
                 script.append([c[0], c[1], w.enc(c[2])])
             else:
                 script.append(c)
-        wire.append({'ports': [{'id': p['id'], 'kind': p['kind'], 'value': w.enc(p['value']), 'internal': bool(p.get('internal'))}
-                               for p in sc['ports']], 'script': script})
+        wire.append({'ports': [{'id': p['id'], 'kind': p['kind'], 'value': w.enc(p['value']), 'internal': bool(p.get('internal')),
+                                'twrite': p.get('twrite')} for p in sc['ports']], 'script': script})
     env = dict(os.environ)
     env['PYTHONPATH'] = coq.VERIF + ':' + repo.REPO
     p = subprocess.run([sys.executable, '-m', 'harness.props.c01_rich_worker'], input=json.dumps(wire), capture_output=True,
@@ -434,7 +452,7 @@ def check_rich(ctx, res, scenarios, tag):
             continue
         d['typed_expr_assigned_mid_pass'] = d.get('typed_expr_assigned_mid_pass', 0) + sum(1 for c in sc['script'] if c[0] == 'expr-in-handler')
         d['typed_internal_ports'] = d.get('typed_internal_ports', 0) + sum(1 for p in sc['ports'] if p.get('internal'))
-        for pid, kind, en, last, text in r['ports']:
+        for pid, kind, en, last, text, tw in r['ports']:
             d['typed_kind:' + kind] = d.get('typed_kind:' + kind, 0) + 1
             if last is None:
                 d['typed_unavailable_at_rest'] = d.get('typed_unavailable_at_rest', 0) + 1
@@ -442,8 +460,16 @@ def check_rich(ctx, res, scenarios, tag):
                 res['tie_failures'].append({'scenario': ws, 'note': 'typed stream: port %s expression %r after assigning %r'
                                                                     % (pid, text, c02.text_of(trees[pid]) if pid in trees else None)})
         ps = coq.lst(['(%s, %s, %s, %s)' % (coq.string(pid), COQ_KIND[kind], coq.boolean(en), pyvals.opt_pyval(w.dec(last)))
-                      for pid, kind, en, last, text in r['ports']])
-        ex = coq.lst(['(%s, %s)' % (coq.string(q), c02.coq_expr(t)) for q, t in sorted(trees.items())])
+                      for pid, kind, en, last, text, tw in r['ports']])
+        tws = {p['id']: p.get('twrite') for p in sc['ports']}
+        for pid, kind, en, last, text, tw in r['ports']:
+            if (tw or None) != (tws.get(pid) or None):
+                res['tie_failures'].append({'scenario': ws, 'note': 'typed stream: port %s write transform %r, assigned %r' % (pid, tw, tws.get(pid))})
+        d['typed_with_write_transform'] = d.get('typed_with_write_transform', 0) + sum(1 for q in trees if tws.get(q))
+        d['typed_port_removed_and_added_again'] = d.get('typed_port_removed_and_added_again', 0) + sum(1 for c in sc['script'] if c[0] == 'readd')
+        ex = coq.lst(['(%s, %s, %s)' % (coq.string(q), c02.coq_expr(t),
+                                       'None' if not tws.get(q) else '(Some %s)' % c02.coq_expr(RICH_TWRITES[tws[q]]))
+                      for q, t in sorted(trees.items())])
         rows.append('(%s, %s)' % (ps, ex))
         meta.append((ws, r))
     if not ctx.model_ok:
@@ -452,7 +478,7 @@ def check_rich(ctx, res, scenarios, tag):
     if not rows:
         return
     outs = coq.eval_shards(ctx.workdir, 'c01rich' + tag, 'From QT Require Import C01.RichRun.\nOpen Scope Z_scope.\n',
-                           ['Definition rcases : list (list rport * list (string * expr)) := [\n %s].\n' % ';\n '.join(rows)],
+                           ['Definition rcases : list (list rport * list (string * expr * option expr)) := [\n %s].\n' % ';\n '.join(rows)],
                            ['bad_rich rcases'], timeout=1200)
     for rc, lists, err in outs:
         if rc != 0 or len(lists) != 1:
@@ -463,7 +489,8 @@ def check_rich(ctx, res, scenarios, tag):
             res['violations'].append({
                 'key': {'kind': 'not-following-at-quiescence', 'stream': 'typed',
                         'unavailable_involved': any(p[3] is None for p in r['ports']),
-                        'virtual_follower': any(p[1].startswith('v') and p[4] for p in r['ports'])},
+                        'virtual_follower': any(p[1].startswith('v') and p[4] for p in r['ports']),
+                        'write_transform': any(p[5] for p in r['ports'])},
                 'what': 'quiescent hub, but a port does not hold the (coerced) value of its expression, or is not unavailable '
                         'while its expression is: ports (id, kind, enabled, last value, expression) = %r' % (r['ports'],),
                 'case': ws, 'observed': r['ports']})
